@@ -55,6 +55,11 @@ pub fn psig(desc: &str) -> String {
     let loc = if let Some(i) = loc.find("/library/") {
         loc_owned = format!("rust:{}", &loc[i + "/library/".len()..]);
         loc_owned.as_str()
+    } else if let Some(i) = loc.find("/registry/src/") {
+        // dependency from the cargo registry: .../registry/src/<index>/chrono-0.4.39/src/.. => crate:chrono-0.4.39/src/..
+        let rest = &loc[i + "/registry/src/".len()..];
+        loc_owned = format!("crate:{}", rest.split_once('/').map(|x| x.1).unwrap_or(rest));
+        loc_owned.as_str()
     } else {
         loc
     };
@@ -102,6 +107,9 @@ pub fn defuse_hex_literal(text: &str) -> Option<String> {
         None
     }
 }
+
+/// CPU-time budget for one input (in-worker watchdog, independent of machine load)
+pub const CPU_BUDGET_MS: u64 = 5000;
 
 pub fn overflow_sig(phase: &str, construct: &str) -> String {
     format!("abort.stack_overflow.{}.{}", phase, construct)
@@ -466,7 +474,7 @@ impl Check for C23 {
         vec![
             "parse_sql is called on the worker process' main thread with the OS default stack (RLIMIT_STACK 8 MiB); a stack overflow is detected by a SIGSEGV handler on an alternate stack and reported as abort.stack_overflow.<phase>.<construct> (phase = parse | drop of the returned AST)".into(),
             "build profile `verif` (opt-level 2, debug assertions and overflow checks on): stack frames are larger than in a plain release build, so thresholds are lower bounds for release".into(),
-            "watchdog: 10 s per input, confirmed twice with 20 s".into(),
+            "watchdog: 5 s of CPU time per input inside the worker (ITIMER_PROF => hang.cpu.*), plus vcore's wall-clock watchdog (30 s, confirmed twice with 60 s => hang)".into(),
         ]
     }
     fn cases(&self, tier: Tier) -> u64 {
@@ -482,7 +490,7 @@ impl Check for C23 {
         true
     }
     fn timeout_s(&self) -> u64 {
-        10
+        30
     }
     fn floors(&self) -> Vec<(&'static str, f64)> {
         vec![("parsed", 0.05), ("rejected", 0.30), ("src:mutated", 0.25), ("nontrivial", 0.15)]
@@ -607,7 +615,14 @@ impl Check for C23 {
                 );
                 serde_json::to_string(&(v, &o)).unwrap_or_default()
             };
-            segv::arm(&[mk("parse"), mk("drop")]);
+            let hang = |phase: &str| {
+                let v = Verdict::fail(
+                    format!("hang.cpu.{}.{}", phase, construct),
+                    format!("no result after {} s of CPU time while {} — input of {} bytes, nesting depth {} ({})", CPU_BUDGET_MS / 1000, if phase == "parse" { "inside Parser::parse_sql" } else { "dropping the result" }, case.text.len(), depth, construct),
+                );
+                serde_json::to_string(&(v, &o)).unwrap_or_default()
+            };
+            segv::arm_with_watchdog(&[mk("parse"), mk("drop")], &[hang("parse"), hang("drop")], CPU_BUDGET_MS);
         }
         let text = case.text.as_str();
         let r = catch(|| {
